@@ -40,6 +40,16 @@ def run(tier):
     sch = cgen(wd, "gen-cleanup-paged", gp, simulate=2000 if thorough else 150, depth=151)
     v.distinct += len(sch)
     cconform(v, wd, "cleanup-paged-sim", gp, sch, page_size=1)
+    # cleanups that have orphans, redundant snapshots AND old versions to delete, stopped after
+    # each of their next deletions (errors inside cleanup are ignored by add_version)
+    sits = [("orphans", cconsts(Ops={"AV", "GC"}, MaxOps=3, MaxVer=4, Draws={0, 255})),
+            ("snapold", cconsts(Ops=ops, MaxOps=4 if thorough else 3, MaxVer=3, Draws={0, 255},
+                                WithAges=True))]
+    for sit, gs in sits:
+        w = csituations(wd, "sit-" + sit, gs, sit, limit=20 if thorough else 6, faults=True,
+                        timeout=600)
+        v.distinct += len(w)
+        cconform(v, wd, "sit-" + sit, gs, w)
     # the schedules on which the pinned order loses history, replayed on the current code: it
     # must follow the repaired specification and keep every invariant
     wit = cwitness(wd, "witness-pinned-order", pin, limit=40 if thorough else 10)
